@@ -28,7 +28,7 @@ CLAIMED = {
    note="Assumed: SHA-1 and the selection-set formatter are injective on what they read; the frame analyses are conservative syntactic dataflows over go/ssa (not SMT); the inner planner does not share the cache; one sequential thread's view of the mutex.",
    ref="DESIGN.md §5 C14", technique="contract-based deductive verification (reads/modifies frame obligations by SSA dataflow, ghost lock state obligations by z3)"),
  'C06': dict(
-   text="Deductive proof of the links of the chain that are per-call properties: (1) the operation keyword of a step's query string is the client's operation type exactly for root steps (empty insertion point) and `query` for follow-up steps, pinned at the point where the query string is formatted (SetComputedValues, formatter contracts); (2) executeRequests issues at most one Queryer.Query per service group, a request that is not a de-duplicable follow-up lookup (in particular every root request) gets the private key itoa(index) - never a shared `!`-key - and is recorded exactly in its own entry; (3) MultiOpQueryer.Query partitions its inputs into disjoint chunks that cover them (C11 proof), so each request is in exactly one HTTP call. Routing of root fields to their owner (routeSelectionSet) and 'child steps have non-empty insertion points' (extractSelectionSet) are not under contract; plan caching is covered by C14.",
+   text="Deductive proof of the links of the chain that are per-call properties: (1) the operation keyword of a step's query string is the client's operation type exactly for root steps (empty insertion point) and `query` for follow-up steps, pinned at the point where the query string is formatted (SetComputedValues, formatter contracts); (2) executeRequests issues at most one Queryer.Query per service group, a request that is not a de-duplicable follow-up lookup (in particular every root request) gets the private key itoa(index) - never a shared `!`-key - and is recorded exactly in its own entry; (3) MultiOpQueryer.Query partitions its inputs into disjoint chunks that cover them (C11 proof), so each request is in exactly one HTTP call. (4) SetComputedValues stores a formatter only into its own step (direct-store frame), so the root's operation keyword and name cannot be handed to a follow-up step. Routing of root fields to their owner (routeSelectionSet) and 'child steps have non-empty insertion points' (extractSelectionSet) are not under contract; plan caching is covered by C14.",
    note="Assumed: AsyncMapReduce fold contract; planner functions below SetComputedValues (routeSelectionSet, extractSelectionSet) are not verified; lo.PartitionBy groups by URL; modifies clauses marked assumed in the evidence.",
    ref="DESIGN.md §5 C06", technique="contract-based deductive verification (loop-entry assertions on formatter state, ghost call counter, key-shape postconditions, z3+cvc5)"),
  'C13': dict(
@@ -48,11 +48,11 @@ CLAIMED = {
    note="Assumed: payload values are JSON values (no typed-nil maps inside interfaces, ids are JSON kinds); insertion points emitted by FindInsertionPoints carry non-negative indexes (ghost PointIndexOK, not proved); AsyncMapReduce fold contract; depth map contiguity after NewDepthExecutorManager; modifies clauses marked assumed; library models listed in the evidence.",
    ref="DESIGN.md §5 C09", technique="contract-based deductive verification (safety obligations for all instructions + error-signalling postcondition chain, z3+cvc5)"),
  'C12': dict(
-   text="Deductive proof that executeRequests performs at most one Queryer.Query call (ghost call counter) and none for an empty group, that its de-duplication bookkeeping is a well-formed index map (non-aliased entries, injective target slots within the batch, every request index recorded in exactly the bookkeeping or the skip set) and that every request of the group receives a non-nil response bound to itself (fan-out postcondition) for every number of requests; DepthExecutor.Execute's per-service closure inherits the one-call bound. The bound 'calls per service <= plan levels' across manager iterations relies on the manager loop calling de.Execute once per depth (structural) and on the fold contract.",
-   note="Assumed: AsyncMapReduce fold contract; lo.PartitionBy groups requests by URL; Queryer implementations refine the interface contract (MultiOpQueryer is checked); Sprintf/Itoa key formats are not modelled (de-dup key semantics are not part of the proof).",
+   text="Deductive proof that executeRequests performs at most one Queryer.Query call (ghost call counter) and none for an empty group, that its de-duplication bookkeeping is a well-formed index map (non-aliased entries, injective target slots within the batch, every request index recorded in exactly the bookkeeping or the skip set) and that every request of the group receives a non-nil response bound to itself (fan-out postcondition) for every number of requests; DepthExecutor.Execute's per-service closure inherits the one-call bound, and the key that groups a level's requests is proved to be the service URL and nothing else. The bound 'calls per service <= plan levels' across manager iterations relies on the manager loop calling de.Execute once per depth (structural) and on the fold contract.",
+   note="Assumed: AsyncMapReduce fold contract; lo.PartitionBy makes one group per distinct key; Queryer implementations refine the interface contract (MultiOpQueryer is checked); Sprintf is an injective uninterpreted function of its arguments.",
    ref="DESIGN.md §5 C12", technique="contract-based deductive verification (ghost call counter, quantified map invariants with goal-directed instantiation, z3+cvc5)"),
  'C10': dict(
-   text="Deductive proof that (a) on every path of the per-operation closure where the query does not validate, names an unknown operation or is ambiguous, the ghost downstream-call counter is unchanged and the result has data:null and >=1 error; (b) FormatError and ExtendErrorList preserve *Error values by pointer identity (hence message, extensions, path) for single errors and error lists, for all inputs. The passage of a service's error list from queryBatch up to the closure is covered only by these kernels (not a full chain).",
+   text="Deductive proof that (a) on every path of the per-operation closure where the query does not validate, names an unknown operation or is ambiguous, the ghost downstream-call counter is unchanged and the result has data:null and >=1 error; (b) FormatError and ExtendErrorList preserve *Error values by pointer identity (hence message, extensions, path) for single errors and error lists, for all inputs. (c) queryBatch ends the batch with a reply's errors whenever that reply carries any, whatever else it carries (loop invariant). The passage of the error list from queryBatch up to the closure is covered only by these kernels (not a full chain).",
    note="Assumed: LoadQuery / OperationList.ForName library contracts (ghost ValidQuery, LoadedDoc, OpNamed); QueryCalls ghost counts Queryer.Query invocations (Subscribe and the queryer factory are outside); no typed-nil *gqlerror.Error values.",
    ref="DESIGN.md §5 C10", technique="contract-based deductive verification (ghost effect counter + frame, functional contracts with pointer identity, z3+cvc5)"),
  'C11': dict(
